@@ -13,6 +13,7 @@ import (
 	"fmt"
 	"net/http/httptest"
 	"os"
+	"reflect"
 	"sort"
 	"strings"
 	"sync"
@@ -21,6 +22,7 @@ import (
 	"time"
 
 	"github.com/alephium/wormhole-fork/node/pkg/common"
+	ethcommon "github.com/ethereum/go-ethereum/common"
 	gossipv1 "github.com/alephium/wormhole-fork/node/pkg/proto/gossip/v1"
 	"github.com/alephium/wormhole-fork/node/pkg/readiness"
 	"github.com/alephium/wormhole-fork/node/pkg/supervisor"
@@ -419,8 +421,16 @@ func (sc *scen) pendingSnapshot() map[[4]uint64]uint64 {
 	out := map[[4]uint64]uint64{}
 	sc.w.pendingMu.Lock()
 	for k, p := range sc.w.pending {
-		em := uint64(k.EmitterAddress[30])<<8 | uint64(k.EmitterAddress[31])
-		out[[4]uint64{uint64(hNum(k.TxHash)), uint64(hNum(k.BlockHash)), em, k.Sequence}] = p.height
+		// what is pending is read from the ENTRY (its message) and, for the block hash, from the key by field name: the harness
+		// does not depend on which components the key type has (a key that forgets one shows up as a lost message, not as a build error)
+		em := uint64(p.message.EmitterAddress[30])<<8 | uint64(p.message.EmitterAddress[31])
+		var bh ethcommon.Hash
+		if f := reflect.ValueOf(k).FieldByName("BlockHash"); f.IsValid() {
+			if h, ok := f.Interface().(ethcommon.Hash); ok {
+				bh = h
+			}
+		}
+		out[[4]uint64{uint64(hNum(p.message.TxHash)), uint64(hNum(bh)), em, p.message.Sequence}] = p.height
 	}
 	sc.w.pendingMu.Unlock()
 	return out
@@ -1718,6 +1728,11 @@ func corpus() []struct {
 		{scenCfg{Wait: false, Finalized: true, Head0: 1000, PollMs: 1, Name: "reobs-not-final-nothing-pending"},
 			[]step{{Op: "log", Tx: 1, Body: 1, Em: 1, Seq: 1, CL: 1, Block: 1000, BH: 1}, hd(1001), {Op: "reorg", Tx: 1, How: "moved", BH: 9, Block: 1030}, {Op: "reobs", Tx: 1}, hd(1031), {Op: "reobs", Tx: 1}}},
 		{scenCfg{Wait: false, Head0: 1000, PollMs: 1, Name: "no-wait-mode"}, []step{lg(1, 1, 1001, 200), hd(1001), lg(2, 2, 1001, 15), hd(1002)}},
+		// sequences are counted per emitter: two emitters publish their first message (sequence 0) in ONE transaction, a third message of
+		// emitter 1 follows; all three are pending under (tx, block, emitter, sequence) and each must be forwarded exactly once
+		{scenCfg{Wait: true, Head0: 999, PollMs: 1, Name: "two-emitters-same-sequence-in-one-transaction"},
+			[]step{{Op: "log", Tx: 1, Body: 1, Em: 1, Seq: 0, CL: 1, Block: 1000, BH: 1}, {Op: "log", Tx: 1, Body: 2, Em: 2, Seq: 0, CL: 1, Block: 1000, BH: 1},
+				{Op: "log", Tx: 1, Body: 3, Em: 1, Seq: 1, CL: 2, Block: 1000, BH: 1}, hd(1001), hd(1002), hd(1003)}},
 		// the head that confirms message 1 (and empties w.pending: DisablePoller) is processed while the block-time lookup of log 2 is in
 		// flight: log 2 must still be inserted with the poller switched on
 		{scenCfg{Wait: true, Head0: 999, PollMs: 1, Name: "log-inserted-while-pending-empties"},
